@@ -42,12 +42,16 @@ theorem IsPartition.mem_iff {es : Events} {S : Nat} (h : IsPartition es S) {s : 
 
 /-! ## 1. one `adapt` call keeps a partition -/
 
+/-- an empty list of scenarios is not an event: the call is refused (`ValueError`) from every state -/
+theorem evtadapt_rejects_empty (st : EvState) : evtadapt st [] = .error .valueError := rfl
+
 /-- **C13.1** A successful `evtadapt` call turns a partition of the scenarios `0..S-1` into a
 partition of `0..S-1` (nothing is lost or duplicated, whatever the state's `rest` flag is). -/
 theorem evtadapt_partition {st st' : EvState} {ev : List Nat} {S : Nat}
     (hp : IsPartition st.events S) (h : evtadapt st ev = .ok st') : IsPartition st'.events S := by
   unfold IsPartition at *
-  unfold evtadapt at h
+  obtain ⟨_, h⟩ := evtadapt_ok_ne h
+  unfold evtadaptCore at h
   split at h
   · cases h
   · rename_i hd tl hev
